@@ -629,8 +629,8 @@ func (sc *serverConn) handleStreams() {
 loop:
 	for {
 		releaseHandled()
-		verifTick(verifTickStreamLoop)
 		verifGauge(len(strms), openStreams, len(closedRing))
+		verifTick(verifTickStreamLoop)
 
 		select {
 		case <-sc.closer:
